@@ -1343,8 +1343,12 @@ def run_mergeclose(case):
         ok, res = _call_named(mcp, peaks=peaks, minimum_distance=case["md"])
         if not ok:
             return [UNSEEN], ops
-        f = res.frames[0]
-        return [enc_listlist([f.coordinates], er) + " " + enc_listlist([f.peak_amplitudes], er)], ops
+        try:
+            f = res.frames[0]
+            seen = enc_listlist([f.coordinates], er) + " " + enc_listlist([f.peak_amplitudes], er)
+        except (AttributeError, TypeError):
+            return [UNSEEN], ops  # the result carries its data under other names now: not an answer of the implementation
+        return [seen], ops
     except Exception as e:
         return [errname(e)], ops
 
